@@ -558,7 +558,7 @@ Section Contract.
         rewrite Hkeep2 by lia. rewrite Hkeep1 by lia. exact Hn. }
       split; [exact Hle|]. split.
       + (* bound variables carry their JAX values *)
-        intros w n Hb. rewrite Eo. unfold bound in Hb. simpl in Hb.
+        intros w n Hb. unfold bound in Hb. simpl in Hb.
         destruct o as [v|]; simpl in *.
         * destruct (Nat.eqb_spec v w) as [->|Hne].
           -- injection Hb as <-. exists T. rewrite Nat.eqb_refl. split; [now rewrite HTeq | exact Hgres].
@@ -596,3 +596,217 @@ Section Contract.
       Forall (fun v => exists n a, bound (erase s') v = Some n /\ g' n = Some a /\ r' v = Some a) outvars.
   Proof. exact (lower_jaxpr_outputs cten (kpsem tab) (kgsem lit) (kreg tab) lit jp s s' r g r' outvars kreg_contract). Qed.
 End Contract.
+
+(* ================================================================ the table of exact kernels *)
+Definition has_k (k : sk) (v : sval) : bool :=
+  match k, v with SZ, VZ _ | SB, VB _ | SQ, VQ _ => true | _, _ => false end.
+Lemma has_k_inj k v : has_k k v = true -> v = inj k (prj k v).
+Proof. destruct k, v; simpl; intro H; try discriminate; reflexivity. Qed.
+Definition x0 (xs : list sval) := nth 0 xs sv0.
+Definition x1 (xs : list sval) := nth 1 xs sv0.
+Definition x2 (xs : list sval) := nth 2 xs sv0.
+Definition dom1 ka (p : sden ka -> bool) (xs : list sval) : bool :=
+  match xs with [x] => has_k ka x && p (prj ka x) | _ => false end.
+Definition dom2 ka kb (p : sden ka -> sden kb -> bool) (xs : list sval) : bool :=
+  match xs with [x; y] => has_k ka x && has_k kb y && p (prj ka x) (prj kb y) | _ => false end.
+Definition dom3 ka kb kc (p : sden ka -> sden kb -> sden kc -> bool) (xs : list sval) : bool :=
+  match xs with [x; y; z] => has_k ka x && has_k kb y && has_k kc z && p (prj ka x) (prj kb y) (prj kc z) | _ => false end.
+Definition K1 ka kr (e : kx) (jax : sden ka -> sden kr) (p : sden ka -> bool) : kern :=
+  mkK 1 e (fun xs => lift1 ka kr jax (x0 xs)) (dom1 ka p).
+Definition K2 ka kb kr (e : kx) (jax : sden ka -> sden kb -> sden kr) (p : sden ka -> sden kb -> bool) : kern :=
+  mkK 2 e (fun xs => lift2 ka kb kr jax (x0 xs) (x1 xs)) (dom2 ka kb p).
+Definition K3 ka kb kc kr (e : kx) (jax : sden ka -> sden kb -> sden kc -> sden kr) (p : sden ka -> sden kb -> sden kc -> bool) : kern :=
+  mkK 3 e (fun xs => lift3 ka kb kc kr jax (x0 xs) (x1 xs) (x2 xs)) (dom3 ka kb kc p).
+
+Definition is_root_op (e : kx) : Prop := match e with KVar _ => False | _ => True end.
+Lemma K1_ok ka kr e (low jax : sden ka -> sden kr) p :
+  is_root_op e -> kok 1 e -> kuses 0 e ->
+  (forall x, kev_s e [inj ka x] = inj kr (low x)) -> (forall x, p x = true -> low x = jax x) ->
+  kern_ok (K1 ka kr e jax p).
+Proof.
+  intros Hr Hk Hu Hs Hc. unfold kern_ok, K1; simpl. repeat split; auto.
+  - intros i Hi. assert (i = 0%nat) as -> by lia. exact Hu.
+  - intros xs Hl Hd. destruct xs as [|x [|? ?]]; try discriminate. unfold dom1 in Hd.
+    apply andb_prop in Hd as [Hx Hp]. rewrite (has_k_inj ka x Hx), Hs. unfold lift1, x0. simpl. rewrite prj_inj. f_equal. now apply Hc.
+Qed.
+Lemma K2_ok ka kb kr e (low jax : sden ka -> sden kb -> sden kr) p :
+  is_root_op e -> kok 2 e -> kuses 0 e -> kuses 1 e ->
+  (forall x y, kev_s e [inj ka x; inj kb y] = inj kr (low x y)) -> (forall x y, p x y = true -> low x y = jax x y) ->
+  kern_ok (K2 ka kb kr e jax p).
+Proof.
+  intros Hr Hk Hu0 Hu1 Hs Hc. unfold kern_ok, K2; simpl. repeat split; auto.
+  - intros i Hi. destruct i as [|[|i]]; [exact Hu0 | exact Hu1 | lia].
+  - intros xs Hl Hd. destruct xs as [|x [|y [|? ?]]]; try discriminate. unfold dom2 in Hd.
+    apply andb_prop in Hd as [Hd Hp]. apply andb_prop in Hd as [Hx Hy].
+    rewrite (has_k_inj ka x Hx), (has_k_inj kb y Hy), Hs. unfold lift2, x0, x1. simpl. rewrite !prj_inj. f_equal. now apply Hc.
+Qed.
+Lemma K3_ok ka kb kc kr e (low jax : sden ka -> sden kb -> sden kc -> sden kr) p :
+  is_root_op e -> kok 3 e -> kuses 0 e -> kuses 1 e -> kuses 2 e ->
+  (forall x y z, kev_s e [inj ka x; inj kb y; inj kc z] = inj kr (low x y z)) ->
+  (forall x y z, p x y z = true -> low x y z = jax x y z) ->
+  kern_ok (K3 ka kb kc kr e jax p).
+Proof.
+  intros Hr Hk Hu0 Hu1 Hu2 Hs Hc. unfold kern_ok, K3; simpl. repeat split; auto.
+  - intros i Hi. destruct i as [|[|[|i]]]; [exact Hu0 | exact Hu1 | exact Hu2 | lia].
+  - intros xs Hl Hd. destruct xs as [|x [|y [|z [|? ?]]]]; try discriminate. unfold dom3 in Hd.
+    apply andb_prop in Hd as [Hd Hp]. apply andb_prop in Hd as [Hd Hz]. apply andb_prop in Hd as [Hx Hy].
+    rewrite (has_k_inj ka x Hx), (has_k_inj kb y Hy), (has_k_inj kc z Hz), Hs. unfold lift3, x0, x1, x2. simpl. rewrite !prj_inj.
+    f_equal. now apply Hc.
+Qed.
+
+(* decidable domains *)
+Definition in_intb (sb : ity) (z : Z) : bool := (int_lo sb <=? z) && (z <=? int_hi sb).
+Lemma in_intb_spec sb z : in_intb sb z = true -> in_int sb z.
+Proof. unfold in_intb, in_int. intro H. apply andb_prop in H as [H1 H2]. lia. Qed.
+Definition div_domb (sb : ity) (x y : Z) : bool := negb (y =? 0) && negb (is_signed sb && (x =? int_lo sb) && (y =? -1)).
+Lemma div_domb_spec sb x y : div_domb sb x y = true -> div_dom sb x y.
+Proof.
+  unfold div_domb, div_dom. intro H. apply andb_prop in H as [H1 H2]. apply negb_true_iff in H1, H2. split; [lia|].
+  intros (Hs & Hx & Hy). rewrite Hs, Hx, Hy, !Z.eqb_refl in H2. discriminate.
+Qed.
+Definition frac_okb (q : frac) : bool := 0 <? snd q.
+Lemma frac_okb_spec q : frac_okb q = true -> frac_ok q.
+Proof. unfold frac_okb, frac_ok. lia. Qed.
+Definition tt1 {A} : A -> bool := fun _ => true.
+Definition tt2 {A B} : A -> B -> bool := fun _ _ => true.
+Definition tt3 {A B C} : A -> B -> C -> bool := fun _ _ _ => true.
+
+(* the primitive-level kernels (operand order of the JAX primitive) *)
+Definition ke_clamp_p : kx := KOp2 OMin (KOp2 OMax v1 v0) v2.          (* lax.clamp(lo, x, hi) *)
+
+Section IntKernels.
+  Variable sb : ity.
+  Definition zin2 (x y : Z) : bool := in_intb sb x && in_intb sb y.
+  Definition ki_add := K2 SZ SZ SZ (ke_add sb) (jax_add sb) zin2.
+  Definition ki_sub := K2 SZ SZ SZ (ke_sub sb) (jax_sub sb) zin2.
+  Definition ki_mul := K2 SZ SZ SZ (ke_mul sb) (jax_mul sb) zin2.
+  Definition ki_neg := K1 SZ SZ (ke_neg sb) (jax_neg sb) (in_intb sb).
+  Definition ki_sign := K1 SZ SZ (ke_sign sb) (jax_sign sb) (in_intb sb).
+  Definition ki_abs := K1 SZ SZ (ke_abs sb) (jax_abs sb) (fun x => is_signed sb && in_intb sb x).
+  Definition ki_div := K2 SZ SZ SZ (ke_div sb) (jax_div sb) (fun x y => zin2 x y && div_domb sb x y).
+  Definition ki_rem := K2 SZ SZ SZ (ke_rem sb) (jax_rem sb) (fun x y => zin2 x y && negb (y =? 0)).
+  Definition ki_max := K2 SZ SZ SZ ke_max jax_max zin2.
+  Definition ki_min := K2 SZ SZ SZ ke_min jax_min zin2.
+  Definition ki_clamp := K3 SZ SZ SZ SZ ke_clamp_p (fun lo x hi => jax_clamp x lo hi) tt3.
+  Definition ki_clip := K3 SZ SZ SZ SZ ke_clamp jax_clip tt3.
+  Definition ki_select_n := K3 SB SZ SZ SZ ke_select_n jax_select_n tt3.
+  Definition ki_where := K3 SB SZ SZ SZ ke_where jax_where tt3.
+  Definition ki_and := K2 SZ SZ SZ (ke_bitand sb) (jax_bitand sb) tt2.
+  Definition ki_or := K2 SZ SZ SZ (ke_bitor sb) (jax_bitor sb) tt2.
+  Definition ki_xor := K2 SZ SZ SZ (ke_bitxor sb) (jax_bitxor sb) tt2.
+  Definition ki_not := K1 SZ SZ (ke_bitnot sb) (jax_bitnot sb) (in_intb sb).
+  Definition shift_ok (x s : Z) : bool := zin2 x s && (0 <=? s).
+  Definition ki_shl := K2 SZ SZ SZ (ke_shift_left sb) (jax_shift_left sb) shift_ok.
+  Definition ki_srl := K2 SZ SZ SZ (ke_shift_right_logical sb) (jax_shift_right_logical sb) shift_ok.
+  Definition ki_sra := K2 SZ SZ SZ (ke_shift_right_arithmetic sb) (jax_shift_right_arithmetic sb) shift_ok.
+  Definition ki_eq := K2 SZ SZ SB ke_eq jax_eq tt2.
+  Definition ki_ne := K2 SZ SZ SB ke_ne jax_ne tt2.
+  Definition ki_lt := K2 SZ SZ SB ke_lt jax_lt tt2.
+  Definition ki_le := K2 SZ SZ SB ke_le jax_le tt2.
+  Definition ki_gt := K2 SZ SZ SB ke_gt jax_gt tt2.
+  Definition ki_ge := K2 SZ SZ SB ke_ge jax_ge tt2.
+  Definition ki_ipow (n : nat) := K1 SZ SZ (ke_integer_pow sb n) (fun x => jax_integer_pow sb x n) (in_intb sb).
+  Definition ki_convert_to := K1 SZ SZ (ke_convert_int sb) (jax_convert_int sb) tt1.       (* any integer type -> sb *)
+  Definition ki_to_bool := K1 SZ SB ke_convert_to_bool jax_convert_to_bool tt1.
+  Definition ki_from_bool := K1 SB SZ (ke_convert_of_bool sb) (jax_convert_of_bool sb) tt1.
+
+  Hypothesis Hb : 0 < snd sb.
+  Ltac kok_tac := unfold ke_neg, ke_floor_divide, ke_shift_left, ke_shift_right_logical, ke_shift_right_arithmetic,
+                    ke_sra_signed, ke_sra_unsigned, ke_sra_mask, ke_rem, ke_rem_of, utwin;
+                  repeat (cbn; try match goal with |- context [if is_signed ?s then _ else _] => destruct (is_signed s) end);
+                  repeat split; auto; try lia.
+  Ltac root_tac := unfold is_root_op, ke_neg, ke_shift_left, ke_shift_right_logical, ke_shift_right_arithmetic;
+                   repeat (cbn; try match goal with |- context [if is_signed ?s then _ else _] => destruct (is_signed s) end); exact I.
+  Ltac zin_tac H := unfold zin2 in H; apply andb_prop in H;
+                    let Hx := fresh "Hx" in let Hy := fresh "Hy" in
+                    destruct H as [Hx Hy]; apply in_intb_spec in Hx; apply in_intb_spec in Hy.
+
+  Lemma ki_add_ok : kern_ok ki_add. Proof. apply (K2_ok SZ SZ SZ (ke_add sb) (lowered_add sb)); try kuses_tac; try root_tac; try solve [kok_tac]; try reflexivity. Qed.
+  Lemma ki_sub_ok : kern_ok ki_sub. Proof. apply (K2_ok SZ SZ SZ (ke_sub sb) (lowered_sub sb)); try kuses_tac; try root_tac; try solve [kok_tac]; try reflexivity. Qed.
+  Lemma ki_mul_ok : kern_ok ki_mul. Proof. apply (K2_ok SZ SZ SZ (ke_mul sb) (lowered_mul sb)); try kuses_tac; try root_tac; try solve [kok_tac]; try reflexivity. Qed.
+  Lemma ki_neg_ok : kern_ok ki_neg.
+  Proof.
+    apply (K1_ok SZ SZ (ke_neg sb) (lowered_neg sb)); try kuses_tac; try root_tac; try solve [kok_tac].
+    - intro x. apply ke_neg_sound. - intros x H. apply in_intb_spec in H. now apply neg_correct.
+  Qed.
+  Lemma ki_sign_ok : kern_ok ki_sign.
+  Proof.
+    apply (K1_ok SZ SZ (ke_sign sb) (lowered_sign sb)); try kuses_tac; try root_tac; try solve [kok_tac].
+    intros x H. apply in_intb_spec in H. now apply sign_correct.
+  Qed.
+  Lemma ki_abs_ok : kern_ok ki_abs.
+  Proof.
+    apply (K1_ok SZ SZ (ke_abs sb) (lowered_abs sb)); try kuses_tac; try root_tac; try solve [kok_tac].
+    intros x H. apply andb_prop in H as [Hs H]. apply in_intb_spec in H. now apply abs_correct.
+  Qed.
+  Lemma ki_div_ok : kern_ok ki_div.
+  Proof.
+    apply (K2_ok SZ SZ SZ (ke_div sb) (lowered_div sb)); try kuses_tac; try root_tac; try solve [kok_tac].
+    intros x y H. apply andb_prop in H as [H Hd]. apply div_domb_spec in Hd. zin_tac H. now apply div_correct.
+  Qed.
+  Lemma ki_rem_ok : kern_ok ki_rem.
+  Proof.
+    apply (K2_ok SZ SZ SZ (ke_rem sb) (lowered_rem sb)); try kuses_tac; try root_tac; try solve [kok_tac].
+    intros x y H. apply andb_prop in H as [H Hd]. apply negb_true_iff in Hd. zin_tac H. apply rem_correct; auto. lia.
+  Qed.
+  Lemma ki_max_ok : kern_ok ki_max. Proof. apply (K2_ok SZ SZ SZ ke_max lowered_max); try kuses_tac; try root_tac; try solve [kok_tac]; try reflexivity; try (intros; apply max_correct). Qed.
+  Lemma ki_min_ok : kern_ok ki_min. Proof. apply (K2_ok SZ SZ SZ ke_min lowered_min); try kuses_tac; try root_tac; try solve [kok_tac]; try reflexivity; try (intros; apply min_correct). Qed.
+  Lemma ki_clamp_ok : kern_ok ki_clamp.
+  Proof. apply (K3_ok SZ SZ SZ SZ ke_clamp_p (fun lo x hi => lowered_clamp x lo hi)); try kuses_tac; try root_tac; try solve [kok_tac]; try reflexivity; try (intros; apply clamp_correct). Qed.
+  Lemma ki_clip_ok : kern_ok ki_clip.
+  Proof. apply (K3_ok SZ SZ SZ SZ ke_clamp lowered_clip); try kuses_tac; try root_tac; try solve [kok_tac]; try reflexivity; try (intros; apply clip_correct). Qed.
+  Lemma ki_select_n_ok : kern_ok ki_select_n.
+  Proof. apply (K3_ok SB SZ SZ SZ ke_select_n lowered_select_n); try kuses_tac; try root_tac; try solve [kok_tac]; try reflexivity. Qed.
+  Lemma ki_where_ok : kern_ok ki_where.
+  Proof. apply (K3_ok SB SZ SZ SZ ke_where lowered_where); try kuses_tac; try root_tac; try solve [kok_tac]; try reflexivity. Qed.
+  Lemma ki_and_ok : kern_ok ki_and. Proof. apply (K2_ok SZ SZ SZ (ke_bitand sb) (lowered_bitand sb)); try kuses_tac; try root_tac; try solve [kok_tac]; try reflexivity. Qed.
+  Lemma ki_or_ok : kern_ok ki_or. Proof. apply (K2_ok SZ SZ SZ (ke_bitor sb) (lowered_bitor sb)); try kuses_tac; try root_tac; try solve [kok_tac]; try reflexivity. Qed.
+  Lemma ki_xor_ok : kern_ok ki_xor. Proof. apply (K2_ok SZ SZ SZ (ke_bitxor sb) (lowered_bitxor sb)); try kuses_tac; try root_tac; try solve [kok_tac]; try reflexivity. Qed.
+  Lemma ki_not_ok : kern_ok ki_not.
+  Proof.
+    apply (K1_ok SZ SZ (ke_bitnot sb) (lowered_bitnot sb)); try kuses_tac; try root_tac; try solve [kok_tac].
+    intros x H. apply in_intb_spec in H. now apply bitnot_correct.
+  Qed.
+  Lemma ki_shl_ok : kern_ok ki_shl.
+  Proof.
+    apply (K2_ok SZ SZ SZ (ke_shift_left sb) (lowered_shift_left sb)); try kuses_tac; try root_tac; try solve [kok_tac].
+    - intros x y. apply ke_shift_left_sound. - intros x s H. apply andb_prop in H as [H H0]. zin_tac H. apply shift_left_correct; auto. lia.
+  Qed.
+  Lemma ki_srl_ok : kern_ok ki_srl.
+  Proof.
+    apply (K2_ok SZ SZ SZ (ke_shift_right_logical sb) (lowered_shift_right_logical sb)); try kuses_tac; try root_tac; try solve [kok_tac].
+    - intros x y. apply ke_shift_right_logical_sound.
+    - intros x s H. apply andb_prop in H as [H H0]. zin_tac H. apply shift_right_logical_correct; auto. lia.
+  Qed.
+  Lemma ki_sra_ok : kern_ok ki_sra.
+  Proof.
+    apply (K2_ok SZ SZ SZ (ke_shift_right_arithmetic sb) (lowered_shift_right_arithmetic sb)); try kuses_tac; try root_tac; try solve [kok_tac].
+    - intros x y. apply ke_shift_right_arithmetic_sound.
+    - intros x s H. apply andb_prop in H as [H H0]. zin_tac H. apply shift_right_arithmetic_correct; auto. lia.
+  Qed.
+  Lemma ki_eq_ok : kern_ok ki_eq. Proof. apply (K2_ok SZ SZ SB ke_eq lowered_eq); try kuses_tac; try root_tac; try solve [kok_tac]; try reflexivity. Qed.
+  Lemma ki_ne_ok : kern_ok ki_ne. Proof. apply (K2_ok SZ SZ SB ke_ne lowered_ne); try kuses_tac; try root_tac; try solve [kok_tac]; try reflexivity. Qed.
+  Lemma ki_lt_ok : kern_ok ki_lt. Proof. apply (K2_ok SZ SZ SB ke_lt lowered_lt); try kuses_tac; try root_tac; try solve [kok_tac]; try reflexivity. Qed.
+  Lemma ki_le_ok : kern_ok ki_le. Proof. apply (K2_ok SZ SZ SB ke_le lowered_le); try kuses_tac; try root_tac; try solve [kok_tac]; try reflexivity; try (intros; apply le_correct). Qed.
+  Lemma ki_gt_ok : kern_ok ki_gt. Proof. apply (K2_ok SZ SZ SB ke_gt lowered_gt); try kuses_tac; try root_tac; try solve [kok_tac]; try reflexivity; try (intros; apply gt_correct). Qed.
+  Lemma ki_ge_ok : kern_ok ki_ge. Proof. apply (K2_ok SZ SZ SB ke_ge lowered_ge); try kuses_tac; try root_tac; try solve [kok_tac]; try reflexivity; try (intros; apply ge_correct). Qed.
+  Lemma ke_mul_chain_kok k : kok 1 (ke_mul_chain sb k).
+  Proof. induction k as [|k IH]; cbn; [lia|]. repeat split; auto; try lia. cbn. lia. Qed.
+  Lemma ke_mul_chain_uses k : kuses 0 (ke_mul_chain sb k).
+  Proof. induction k as [|k IH]; cbn; auto. Qed.
+  Lemma ki_ipow_ok n : kern_ok (ki_ipow n).
+  Proof.
+    apply (K1_ok SZ SZ (ke_integer_pow sb n) (fun x => lowered_integer_pow sb x n)).
+    - destruct n as [|[|k]]; exact I.
+    - destruct n as [|[|k]]; [cbn; repeat split; auto; lia | cbn; repeat split; auto | apply (ke_mul_chain_kok (S k))].
+    - destruct n as [|[|k]]; [cbn; tauto | cbn; tauto | apply (ke_mul_chain_uses (S k))].
+    - intro x. apply ke_integer_pow_sound.
+    - intros x H. apply in_intb_spec in H. now apply integer_pow_correct.
+  Qed.
+  Lemma ki_convert_to_ok : kern_ok ki_convert_to.
+  Proof. apply (K1_ok SZ SZ (ke_convert_int sb) (lowered_convert_int sb)); try kuses_tac; try root_tac; try solve [kok_tac]; try reflexivity. Qed.
+  Lemma ki_to_bool_ok : kern_ok ki_to_bool.
+  Proof. apply (K1_ok SZ SB ke_convert_to_bool lowered_convert_to_bool); try kuses_tac; try root_tac; try solve [kok_tac]; try reflexivity; try (intros; apply convert_to_bool_correct). Qed.
+  Lemma ki_from_bool_ok : kern_ok ki_from_bool.
+  Proof. apply (K1_ok SB SZ (ke_convert_of_bool sb) (lowered_convert_of_bool sb)); try kuses_tac; try root_tac; try solve [kok_tac]; try reflexivity. Qed.
+End IntKernels.
